@@ -34,11 +34,12 @@ func runDrain(seed uint64, scale int, out string, _ string) *summary {
 	//       the maintainer finishes (status idle, lock released, nothing to reschedule); the writer
 	//       resumes: its transition to processing-to-required fails and it must start over;
 	//   V2  the same without parking the writer (its transition wins; the maintainer must reschedule);
-	//   V3  the writer is parked after loading "idle" while another writer runs a complete cycle.
+	//   V3  the writer is parked after loading "idle" while another writer runs a complete cycle;
+	//   V4  writes made from inside a Hottest / Coldest iteration (the view holds the eviction lock).
 	scripted := 60 * scale
 	stranded := 0
 	for sc := 0; sc < scripted && stranded < 6; sc++ {
-		variant := sc % 3
+		variant := sc % 4
 		var armed2, armed8 atomic.Int32
 		var passed6 atomic.Int64
 		arrived2, arrived8 := make(chan struct{}, 1), make(chan struct{}, 1)
@@ -107,6 +108,27 @@ func runDrain(seed uint64, scale int, out string, _ string) *summary {
 				close(release8)
 			}
 			waitCh(doneB)
+		case 3:
+			// V4: a write made while an eviction-order view (Hottest / Coldest: SaveCacheTo iterates one)
+			// holds the eviction lock cannot start maintenance itself; the view must hand over when it ends
+			c.Set(1, 1)
+			c.Set(2, 2)
+			for i := 0; i < 4000; i++ {
+				if st, wb := otter.VerifDrainState(c); st == 0 && wb == 0 {
+					break
+				}
+				time.Sleep(50 * time.Microsecond)
+			}
+			view := c.Hottest()
+			if sc%8 >= 4 {
+				view = c.Coldest()
+			}
+			n := 0
+			for range view {
+				c.Set(10+n, n)
+				n++
+			}
+			close(doneB)
 		default:
 			armed8.Store(1)
 			go func() { c.Set(2, 2); close(doneB) }()
